@@ -20,6 +20,8 @@ type SpecEnv struct {
 	pos   token.Pos
 	inOld bool
 	loopSnap map[int]*State
+	callRes  map[string]Val
+	lvFx     *FuncExec // resolves captured variables in modifies clauses
 	depth int
 	err   error
 }
@@ -422,6 +424,26 @@ func (e *SpecEnv) call(x *ast.CallExpr) Val {
 			e.err = n.err
 		}
 		return r
+	case "resultof":
+		// resultof("callee#k") or resultof("callee#k", i): the value returned by that call on this path
+		lit, ok := x.Args[0].(*ast.BasicLit)
+		if !ok || lit.Kind != token.STRING {
+			return e.fail("resultof needs a string literal")
+		}
+		name, _ := strconv.Unquote(lit.Value)
+		v, ok := e.callRes[name]
+		if !ok {
+			return e.fail("resultof: call %s has not happened on this path", name)
+		}
+		if len(x.Args) == 2 {
+			iv, ok := e.eval(x.Args[1]).(ConstV)
+			tv, ok2 := v.(TupleV)
+			if !ok || !ok2 || int(iv.N.Int64()) >= len(tv.E) {
+				return e.fail("resultof: bad result index")
+			}
+			return tv.E[iv.N.Int64()]
+		}
+		return v
 	case "at_loop":
 		// at_loop(k, e): value of e when the current iteration of loop k started (at its header)
 		kv, ok := e.eval(x.Args[0]).(ConstV)
@@ -911,6 +933,16 @@ func (e *SpecEnv) lvalue(x ast.Expr) (PtrV, Val, bool) {
 			return p, lv, ok
 		}
 		// a captured or local variable
+		if fxx := e.fx; fxx == nil && e.lvFx != nil {
+			for _, fv := range e.lvFx.fn.FreeVars {
+				if fv.Name() == t.Name {
+					if p, ok := e.cur().regs[fv].(PtrV); ok {
+						lv, ok := e.cur().load(p)
+						return p, lv, ok
+					}
+				}
+			}
+		}
 		if e.fx != nil {
 			for _, fv := range e.fx.fn.FreeVars {
 				if fv.Name() == t.Name {
